@@ -466,6 +466,24 @@ func deleteAllSweepsEveryRoom(c *Ctx, rule string) {
 			eachNeverStops(c, rule, name+"/visits-every-room", cf)
 		}
 	}
+	// the other loop form: for _, room := range s.ToSlice() { a.delete(sid, room) } — the sweep is
+	// anchored at the ToSlice() call (it dominates what follows the loop); the removal in the loop
+	// body may be guarded by the loop bound only
+	if len(each) == 0 && p.FnOpt("adapter", "inMemoryAdapter.delete") != nil {
+		ts := findInstrs(fn, setCallPred("ToSlice", `a\.sids\[sid\]#0`))
+		d := CallsTo(Calls(fn), `\(\*adapter\.inMemoryAdapter\)\.delete`)
+		if len(ts) == 1 && len(d) == 1 && Term(d[0].Arg(0)) == "sid" && regexpMatch(`a\.sids\[sid\]#0\.ToSlice\(\)\[idx<.*>\]`, Term(d[0].Arg(1))) {
+			only := true
+			for _, g := range GuardTerms(d[0].Instr) {
+				if !(strings.HasPrefix(g, "(idx<") && strings.Contains(g, "> < len(") && strings.HasSuffix(g, ")==true")) && g != "a.sids[sid]#1==true" { // the loop bound, and "the sid is known"
+					only = false
+				}
+			}
+			if only && Dominates(ts[0], d[0].Instr) {
+				each, okEach = ts, true
+			}
+		}
+	}
 	c.Ob(rule, name+"/rooms-side", fn.Pos(), okEach && li.HoldsW(each[0], "a.mu"), "DeleteAll must remove sid from every room it is in (a.delete(sid, room) for each room of sids[sid]) under a.mu")
 	dd := findInstrs(fn, func(in ssa.Instruction) bool { return isBuiltinDelete(in, "a.sids") })
 	c.Ob(rule, name+"/sids-side", fn.Pos(), len(dd) >= 1, "DeleteAll must delete sids[sid] under a.mu")
